@@ -88,6 +88,10 @@ def analyse(case):
             signers.append(e['i'])
         elif k in ('bitflip', 'impersonate', 'prefixed', 'borrowed'):
             reasons.add('invalid-signature')
+        elif k == 'othermagic':
+            reasons.add('signature-for-other-block')
+        elif k == 'adnl':
+            reasons.add('unknown-signer')
         elif k == 'otherblk':
             reasons.add('signature-for-other-block')
         elif k == 'nonmember':
@@ -114,8 +118,9 @@ def check(case):
     keys = [_key(v['seed']) for v in case['validators']]
     if len({pk for _, pk in keys}) != len(keys):
         raise ValueError('case outside the domain: two members share a key')
-    nodes = [ValidatorDescr('validator_addr' if v.get('addr') else 'validator', SigPubKey(pk), v['weight'],
-                            hashlib.sha256(pk).digest() if v.get('addr') else None)
+    with_addr = any(e['k'] == 'adnl' for e in case['sigs'])        # entries that name a validator by its ADNL address need one
+    nodes = [ValidatorDescr('validator_addr' if v.get('addr') or with_addr else 'validator', SigPubKey(pk), v['weight'],
+                            hashlib.sha256(pk).digest() if v.get('addr') or with_addr else None)
              for v, (_, pk) in zip(case['validators'], keys)]
     if b['seqno'] % 4 == 1 and nodes:
         # descriptor objects that were built with a placeholder and got their key / weight assigned afterwards (public attributes):
@@ -166,6 +171,15 @@ def check(case):
             sk, pk = keys[e['i']]                            # sig64 || extra: not a signature over this block's identifier
             extra_b = hashlib.sha256(b'c12/extra/%d' % e['n']).digest()[:1 + e['n'] % 32]
             s = sk.sign(extra_b + payload).signature + extra_b
+        elif k == 'othermagic':                              # a member's genuine signature over the same two hashes under ANOTHER
+            sk, pk = keys[e['i']]                            # constructor id (ton.blockIdApprove, a zero id, ...): not this block id
+            mg = [SCH.ctor_id('ton.blockIdApprove').to_bytes(4, 'little'), bytes(4), MAGIC_BLOCKID[::-1], MAGIC_PUB_ED25519][e['m'] % 4]
+            s = sk.sign(mg + root + file).signature
+        elif k == 'adnl':                                    # a genuine signature of member i listed under i's ADNL address (the other
+            sk, pk = keys[e['i']]                            # 256-bit name a validator_addr entry carries) instead of its short id
+            s = sk.sign(payload).signature
+            sigs.append({'node_id_short': spell(hashlib.sha256(pk).digest().hex(), e.get('sp', 0)), 'signature': s})
+            continue
         elif k == 'borrowed':                                # member i's id over ANOTHER member's genuine signature bytes (that
             _, pk = keys[e['i']]                             # member's own entry may stand earlier in the list, or in an earlier call)
             s = keys[e['from']][0].sign(payload).signature
@@ -255,6 +269,10 @@ def enum_small(tier):
                                        else [e for e in base if e['i'] != other] + [{'k': 'borrowed', 'i': other, 'from': m}]))
                         shapes.append(('borrowed-before-genuine', [{'k': 'borrowed', 'i': other, 'from': m}] + [e for e in base if e['i'] != other]))
                     shapes.append(('prefixed-all', [{'k': 'prefixed', 'i': i, 'n': mask + i} for i in members]))
+                    shapes.append(('othermagic', base[1:] + [{'k': 'othermagic', 'i': m, 'm': mask}]))
+                    shapes.append(('othermagic-all', [{'k': 'othermagic', 'i': i, 'm': 0} for i in members]))
+                    shapes.append(('adnl-instead', base[1:] + [{'k': 'adnl', 'i': m}]))
+                    shapes.append(('adnl-in-addition', base + [{'k': 'adnl', 'i': m}]))
                 shapes.append(('nonmember', base + [{'k': 'nonmember', 'seed': _seed(f'nm{n}/{mask}')}]))
                 for sname, sl in shapes:
                     if sname == 'reversed' and len(base) < 2:
@@ -297,12 +315,12 @@ def _case(draw):
     sigs = [{'k': 'valid', 'i': i} for i in signers]
     # adversarial elements
     adv = draw(st.sampled_from(['none', 'none', 'none', 'dup', 'dup-many', 'bitflip', 'otherblk', 'nonmember',
-                                'impersonate', 'prefixed', 'borrowed', 'mix']))
+                                'impersonate', 'prefixed', 'borrowed', 'othermagic', 'adnl', 'mix']))
     if mode == 'repeat-one' and adv == 'none':
         adv = 'dup-many'
     extra = []
     kinds = {'dup': ['dup'], 'dup-many': ['dup'] * draw(st.integers(2, 8)), 'mix': draw(st.lists(
-        st.sampled_from(['dup', 'bitflip', 'otherblk', 'nonmember', 'impersonate', 'prefixed', 'borrowed']), min_size=2, max_size=4))}.get(adv, [adv])
+        st.sampled_from(['dup', 'bitflip', 'otherblk', 'nonmember', 'impersonate', 'prefixed', 'borrowed', 'othermagic', 'adnl']), min_size=2, max_size=4))}.get(adv, [adv])
     for j, kd in enumerate(kinds):
         if kd == 'none':
             continue
@@ -327,6 +345,10 @@ def _case(draw):
             extra.append({'k': 'impersonate', 'i': draw(st.integers(0, n - 1)), 'seed': _seed(f'{tag}/im{j}')})
         elif kd == 'prefixed':
             extra.append({'k': 'prefixed', 'i': draw(st.integers(0, n - 1)), 'n': draw(st.integers(0, 255))})
+        elif kd == 'othermagic':
+            extra.append({'k': 'othermagic', 'i': draw(st.integers(0, n - 1)), 'm': draw(st.integers(0, 3))})
+        elif kd == 'adnl':
+            extra.append({'k': 'adnl', 'i': draw(st.integers(0, n - 1))})
         elif kd == 'borrowed':
             if n < 2:
                 extra.append({'k': 'nonmember', 'seed': _seed(f'{tag}/nm{j}')})
